@@ -52,6 +52,7 @@ class HistGen(object):
                       find_one_and_delete=0, bulk_write=0, bulk_builder=0)
         if weights:
             self.w.update(weights)
+        self.dollar_values = 0.0
         self.shadow = []          # rough picture of the documents, to aim filters and updates
         self.index_names = []
         self.now = T0
@@ -81,6 +82,10 @@ class HistGen(object):
         for f in ('a', 'b'):
             if f in d and self.r.random() < 0.5:
                 d[f] = self.r.choice([1, 2, None, 'x'])
+            if self.r.random() < self.dollar_values:
+                # a sub-document with a $-key: the uniqueness look-up built from it is not a
+                # well-formed query and raises something other than a duplicate-key error
+                d[f] = self.r.choice([{'$foo': 1}, {'$in': 3}, {'$size': 'x'}])
         return d
 
     def filt(self):
